@@ -444,7 +444,8 @@ def sys_case(rng, cid, steps=None, nprog=None, big=False, script=None, mode=None
         for _ in range(nsteps):
             script.append(rng.weighted([("nothing", 6), ("edit-src", 3), ("edit-inc", 3), ("touch-inh", 2), ("touch-src", 2),
                                         ("touch-inc", 1), ("simul-restart", 2), ("restart", 1), ("equal-inc", 1),
-                                        ("simul-norestart", 1), ("edit-parent-inc", 2), ("damage", 2), ("foreign", 2), ("moved", 1), ("badload", 1)]))
+                                        ("simul-norestart", 1), ("edit-parent-inc", 2), ("damage", 2), ("foreign", 2), ("moved", 1), ("badload", 1),
+                                        ("parent-noreload", 3)]))
     for act in script:
         t += 1
         which = None
@@ -517,12 +518,15 @@ def sys_case(rng, cid, steps=None, nprog=None, big=False, script=None, mode=None
             fam.progs[i]["grow"] = fam.progs[i].get("grow", 0) + 1
             L.append("file /%s %s" % (fam.path(i), hx(fam.text(i))))
             L.append("mtime /%s %d" % (fam.path(i), t))
-            keep = rng.range(1, i)
-            t += 10
-            L.append("now %d" % t)
-            L.append("intern " + " ".join(hx(n) for n in rng.shuffle(names)))
-            L.append("reload " + " ".join(objs[:keep]))
-            t += 10
+            if mode == "reload":
+                # (in a case whose reloads each run in a process of their own nothing stays loaded: only the edit remains)
+                keep = rng.range(1, i)
+                t += 10
+                L.append("now %d" % t)
+                L.append("intern " + " ".join(hx(n) for n in rng.shuffle(names)))
+                # the programs after `|` stay loaded as they are; they are dumped like the others
+                L.append("reload " + " ".join(objs[:keep]) + " | " + " ".join(objs[keep:]))
+                t += 10
         elif act == "restart":
             L.append("restart " + " ".join(objs))
         reload()
@@ -595,6 +599,16 @@ def boundary():
             c = sys_case(E.Rng(seed + 10 * k), "u%d_%d" % (k, seed), nprog=len(saves), script=script, saves=saves,
                          mode=["reloadp", "reload"][seed % 2])
             c.id = "b-sys-unsaved-%d-%d" % (k, seed)
+            B.append(c)
+    # a parent edited (variables and functions shift) but not loaded again while its heirs are compiled and saved
+    for k, (saves, script) in enumerate([([True, False], ["parent-noreload"]), ([True, True], ["parent-noreload", "nothing"]),
+                                         ([True, False, False], [("parent-noreload", 2)]), ([True, True, False], [("parent-noreload", 2), "nothing"]),
+                                         ([True, False, True], [("parent-noreload", 1), "restart"]),
+                                         ([True, False], ["parent-noreload", "parent-noreload", "edit-src"])]):
+        for seed in (7400, 7401):
+            c = sys_case(E.Rng(seed + 10 * k), "n%d_%d" % (k, seed), nprog=len(saves), script=script, saves=saves,
+                         mode=["reloadp", "reload"][seed % 2])
+            c.id = "b-sys-parent-noreload-%d-%d" % (k, seed)
             B.append(c)
     for k in range(4):
         c = sys_case(E.Rng(7300 + k), "e%d" % k, nprog=2, script=["badload", "nothing"], mode="reload")
